@@ -371,7 +371,18 @@ def values_work(P, item):
         elif r == z3.unknown:
             P.inconclusive_(nm + ": solver unknown")
         else:
-            P.inconclusive_(nm + f": exact-arithmetic model {s.model()} (no synthetic PSRFITS writer for a replay)")
+            # replay at the level of read_subint on a copy of the shipped file with rewritten weight/scale/offset columns
+            m = s.model()
+            from fractions import Fraction
+
+            def fv(t):
+                v = m.eval(t, model_completion=True)
+                return float(Fraction(v.numerator_as_long(), v.denominator_as_long()))
+            params = dict(kind="values", state=state, npol=npol, wts=[fv(x.e) for x in wts], scl=[fv(x.e) for x in scl.ravel()], off=[fv(x.e) for x in off.ravel()])
+            params = {k_: ([min(max(v, -1e3), 1e3) for v in val] if isinstance(val, list) else val) for k_, val in params.items()}
+            src = ("import sys, json\nfrom symx.concrete import c18\n"
+                   f"sys.exit(c18.main(json.loads({json.dumps(json.dumps(params))})))\n")
+            P.violation(f"values-{state}-{npol}-{int(scloffs)}{int(weights)}", nm, src, model=params)
     P.reached += 1
 
 
